@@ -1,5 +1,6 @@
 import Verif.Model.IoFail
 import Verif.Gen.ExitPaths
+import Verif.Props.C12
 /-!
 # C14 — I/O failures surface as errors, never as silent truncation or deadlock
 
@@ -490,5 +491,45 @@ example : (runPkg { rerr := some .reader, lex := .eof, parseRes := none } Verif.
 example : guarded {} [.returnNilIfEOF, .returnLexErr] = false := by decide
 /-- … and so is a write after the probe -/
 example : guarded {} [.probeWrite, .returnIfErr, .work, .returnNilIfEOF, .returnLexErr] = false := by decide
+
+/-! ### through the `Writer` wrapper (transition system of C12) -/
+
+/-- error codes of this model as minifier errors of the stream model -/
+def errCode : Err → Verif.Model.Stream.Err
+  | .writer => .minifier 0 | .reader => .minifier 1 | .syntax => .minifier 2
+  | .eof => .minifier 3 | .sub => .minifier 4
+
+section
+open Verif.Model.Stream hiding Err
+open Verif.Props.C12 Verif.Proofs.Stream
+
+/-- the minifier behind `m.Writer(mediatype, w)` when its run against the (failing) writer `w`
+    writes `out` and ends with verdict `o` -/
+def asMinFn (out : Bytes) (o : Out) : MinFn :=
+  fun _ => (out, match o with | .ret (some e) => some (errCode e) | _ => none)
+
+/-- **C14 through `m.Writer`**: whatever the `Minify` call inside the goroutine returns — in
+    particular the sticky writer's error, which by `C14_main` it must return when a write failed —
+    is what `Close` returns, under every schedule and every chunking of the producer's writes. -/
+theorem writer_close_returns_minifier_error (out : Bytes) (e : Err) (chunks : List Bytes)
+    (cs : List Choice) (r : Option Verif.Model.Stream.Err)
+    (h : (wrun Verif.Gen.Wrappers.skel (some (asMinFn out (.ret (some e))))
+            (winit Verif.Gen.Wrappers.skel.writer chunks) cs).cres = some r) :
+    r = some (errCode e) := by
+  have := ((writer_safe _ gen_wfWriter (some (asMinFn out (.ret (some e)))) chunks cs).2 r h).2.1
+  simpa [plain, asMinFn] using this
+
+/-- **Close always returns**: in every reachable state of the `Writer` system in which `Close` has
+    not returned some thread can step (no deadlock — also when no minifier exists and the goroutine
+    ends without reading), and every step decreases a measure bounded by the input size (no
+    livelock); so every maximal run ends with `Close` returned. -/
+theorem writer_close_always_returns (mf : Option MinFn) (chunks : List Bytes) (s : WState)
+    (hr : WReach Verif.Gen.Wrappers.skel mf chunks s) :
+    (wterminal Verif.Gen.Wrappers.skel s = false → ∃ c, (wstep Verif.Gen.Wrappers.skel mf s c).isSome = true) ∧
+    (∀ c s', wstep Verif.Gen.Wrappers.skel mf s c = some s' → wmeasure s' < wmeasure s) :=
+  ⟨writer_progress _ gen_wfWriter mf chunks s hr,
+   fun c s' h => writer_step_decreases _ gen_wfWriter mf chunks s s' hr c h⟩
+
+end
 
 end Verif.Props.C14
